@@ -16,12 +16,13 @@ use varpulis_runtime::{Event, SharedEvent};
 pub const NAMES: &[&str] = &["C14"];
 
 #[derive(Clone, Debug)]
-enum V { Missing, NonNum(u32), NaN, Int(i64), Dy(i64, u32) }
+enum V { Missing, NonNum(u32), NaN, Inf(bool), NegZero, Int(i64), Dy(i64, u32) }
 
 impl V {
     fn tok(&self) -> String {
         match self {
             V::Missing => "M".into(), V::NonNum(t) => format!("X{}", t), V::NaN => "N".into(),
+            V::Inf(false) => "P".into(), V::Inf(true) => "Q".into(), V::NegZero => "Z".into(),
             V::Int(i) => format!("I{}", i), V::Dy(n, k) => format!("D{}/{}", n, k),
         }
     }
@@ -33,6 +34,9 @@ impl V {
             V::NonNum(2) => Some(Value::Bool(true)),
             V::NonNum(t) => Some(Value::Str(format!("s{}", t - 3).into())),
             V::NaN => Some(Value::Float(f64::NAN)),
+            V::Inf(false) => Some(Value::Float(f64::INFINITY)),
+            V::Inf(true) => Some(Value::Float(f64::NEG_INFINITY)),
+            V::NegZero => Some(Value::Float(-0.0)),
             V::Int(i) => Some(Value::Int(*i)),
             V::Dy(n, k) => Some(Value::Float(*n as f64 / (1u64 << k) as f64)),
         }
@@ -51,9 +55,13 @@ fn res_tok(v: &Value) -> String {
     }
 }
 
-struct Mix { missing: u64, nonnum: u64, nan: u64, int: u64, few: bool }
+struct Mix { missing: u64, nonnum: u64, nan: u64, int: u64, few: bool, pinf: u64, ninf: u64, nzero: u64 }
 
 fn gen_val(ctx: &mut Ctx, m: &Mix) -> V {
+    let sp = ctx.rng.below(100);
+    if sp < m.pinf { return V::Inf(false); }
+    if sp < m.pinf + m.ninf { return V::Inf(true); }
+    if sp < m.pinf + m.ninf + m.nzero { return V::NegZero; }
     let r = ctx.rng.below(100);
     if r < m.missing { V::Missing }
     else if r < m.missing + m.nonnum { V::NonNum(ctx.rng.below(6) as u32) }
@@ -105,10 +113,13 @@ fn batch(ctx: &mut Ctx, vals: &[V], field: &str, use_default_field: bool) {
             &format!("row={} refs={} shared={} col={} ag_row={} ag_sh={} ag_col={}",
                 res_tok(&row), res_tok(&rf), res_tok(&sh), res_tok(&col), g(&ag_row), g(&ag_sh), g(&ag_col)));
     }
-    let nvalid = vals.iter().filter(|v| matches!(v, V::Int(_) | V::Dy(_, _))).count();
+    let nvalid = vals.iter().filter(|v| matches!(v, V::Int(_) | V::Dy(_, _) | V::Inf(_) | V::NegZero)).count();
     ctx.count(&format!("valid-len-mod4.{}", nvalid % 4));
     ctx.count(&format!("batch-len-mod4.{}", vals.len() % 4));
     if vals.iter().any(|v| matches!(v, V::NaN)) { ctx.count("batch.has-nan"); }
+    if vals.iter().any(|v| matches!(v, V::Inf(false))) && vals.iter().any(|v| matches!(v, V::Inf(true))) { ctx.count("batch.has-both-infinities"); }
+    else if vals.iter().any(|v| matches!(v, V::Inf(_))) { ctx.count("batch.has-one-infinity"); }
+    if vals.iter().any(|v| matches!(v, V::NegZero)) { ctx.count("batch.has-neg-zero"); }
     if vals.iter().any(|v| matches!(v, V::Missing)) { ctx.count("batch.has-missing"); }
     if vals.iter().any(|v| matches!(v, V::NonNum(_))) { ctx.count("batch.has-non-numeric"); }
     if nvalid == 0 { ctx.count("batch.no-valid-value"); }
@@ -155,7 +166,7 @@ fn engine_batch(ctx: &mut Ctx, rt: &tokio::runtime::Runtime, vals: &[V]) {
 pub fn run(ctx: &mut Ctx, _name: &str) {
     ctx.directive("new agg");
     let rt = tokio::runtime::Builder::new_current_thread().enable_all().build().expect("rt");
-    let clean = Mix { missing: 0, nonnum: 0, nan: 0, int: 30, few: false };
+    let clean = Mix { missing: 0, nonnum: 0, nan: 0, int: 30, few: false, pinf: 0, ninf: 0, nzero: 0 };
     // every length 0..=67 with all-valid values: every residue mod 4 of the SIMD / unrolled loops
     for len in 0..=67usize {
         let vals: Vec<V> = (0..len).map(|_| gen_val(ctx, &clean)).collect();
@@ -164,13 +175,17 @@ pub fn run(ctx: &mut Ctx, _name: &str) {
     let rounds = if ctx.thorough { 3000 } else { 260 };
     for r in 0..rounds {
         let len = if ctx.rng.chance(1, 6) { ctx.rng.range(0, 5) as usize } else { ctx.rng.range(0, 67) as usize };
-        let mix = match ctx.rng.below(6) {
-            0 => Mix { missing: 0, nonnum: 0, nan: 0, int: 30, few: false },
-            1 => Mix { missing: 15, nonnum: 15, nan: 0, int: 25, few: false },      // NaN-free: stddev/ema numeric
-            2 => Mix { missing: 10, nonnum: 10, nan: 12, int: 25, few: false },
-            3 => Mix { missing: 30, nonnum: 30, nan: 30, int: 5, few: false },      // few or no valid values
-            4 => Mix { missing: 10, nonnum: 20, nan: 5, int: 30, few: true },       // few distinct values
-            _ => Mix { missing: 5, nonnum: 5, nan: 3, int: 40, few: false },
+        let mix = match ctx.rng.below(10) {
+            6 => Mix { missing: 5, nonnum: 5, nan: 0, int: 30, few: false, pinf: 12, ninf: 0, nzero: 0 },   // +inf only
+            7 => Mix { missing: 5, nonnum: 5, nan: 3, int: 30, few: false, pinf: 8, ninf: 8, nzero: 4 },    // both infinities
+            8 => Mix { missing: 5, nonnum: 5, nan: 0, int: 40, few: true, pinf: 0, ninf: 0, nzero: 30 },    // -0.0 among 0.0 / 0 / small values
+            9 => Mix { missing: 10, nonnum: 10, nan: 10, int: 30, few: true, pinf: 5, ninf: 5, nzero: 15 },
+            0 => Mix { missing: 0, nonnum: 0, nan: 0, int: 30, few: false, pinf: 0, ninf: 0, nzero: 0 },
+            1 => Mix { missing: 15, nonnum: 15, nan: 0, int: 25, few: false, pinf: 0, ninf: 0, nzero: 0 },      // NaN-free: stddev/ema numeric
+            2 => Mix { missing: 10, nonnum: 10, nan: 12, int: 25, few: false, pinf: 0, ninf: 0, nzero: 0 },
+            3 => Mix { missing: 30, nonnum: 30, nan: 30, int: 5, few: false, pinf: 0, ninf: 0, nzero: 0 },      // few or no valid values
+            4 => Mix { missing: 10, nonnum: 20, nan: 5, int: 30, few: true, pinf: 0, ninf: 0, nzero: 0 },       // few distinct values
+            _ => Mix { missing: 5, nonnum: 5, nan: 3, int: 40, few: false, pinf: 0, ninf: 0, nzero: 0 },
         };
         let vals: Vec<V> = (0..len).map(|_| gen_val(ctx, &mix)).collect();
         // now and then use the default field name (`field = None` → "value")
